@@ -131,6 +131,19 @@ func cmdCheck(args []string) int {
 		}
 		r.genErrors = append(r.genErrors, lerrs...)
 	}
+	if *prop == "C18" || *prop == "C03" {
+		aobs, aas := runAsmReturns(*repo, cs)
+		for _, l := range aobs {
+			o := &Obligation{Name: l.Name, Kind: "asmreturns", Tags: []string{*prop}, Text: l.Detail, Status: "unsat", Solver: "gocv-asmret (constant propagation over the assembly text)"}
+			if !l.OK {
+				o.Status = "sat"
+				o.Output = l.Detail
+			}
+			r.obls = append(r.obls, o)
+			r.layout++
+		}
+		r.asmAssumptions = aas
+	}
 	r.wall = time.Since(t0).Seconds()
 	code := r.report(*prop, *tier, seed, *out, *noEvidence)
 	return code
@@ -151,6 +164,7 @@ type propRun struct {
 	tier       string
 	cachedDup  int
 	layout     int
+	asmAssumptions []string
 }
 
 func runProperty(prop, tier, repo string, cs *Contracts, timeout int, verbose bool) *propRun {
@@ -387,7 +401,7 @@ func (r *propRun) report(prop, tier string, seed int, evPath string, noEvidence 
 		suffix := " no-failing-input-found"
 		if o.Vacuity {
 			rep["explanation"] = "vacuity guard: the function's exit is unreachable under its assumptions (contradictory requires/assumed contracts)"
-		} else if o.Kind == "layout" {
+		} else if o.Kind == "layout" || o.Kind == "asmreturns" {
 			rep["explanation"] = o.Text
 		} else if o.Status == "sat" {
 			m := modelFor(o, 20)
@@ -484,7 +498,7 @@ func (r *propRun) report(prop, tier string, seed int, evPath string, noEvidence 
 		"samples":                  samples,
 		"explanation":              "contract-based deductive verification: every obligation generated from the SSA of the current working tree (both build configurations) for the functions in the property's cone is discharged by an SMT solver; loops are cut by invariants, calls are replaced by callee contracts",
 	}
-	ev := evidence{PropertyID: prop, Tier: tier, Seed: seed, Level: level, Coverage: cov, Assumptions: append(append([]string{}, standingAssumptions...), assumed...), WallS: round3(r.wall), Violations: violations}
+	ev := evidence{PropertyID: prop, Tier: tier, Seed: seed, Level: level, Coverage: cov, Assumptions: append(append(append([]string{}, standingAssumptions...), assumed...), r.asmAssumptions...), WallS: round3(r.wall), Violations: violations}
 	if !noEvidence {
 		if evPath == "" {
 			evPath = filepath.Join(verifDir, "evidence", prop+".json")
